@@ -9,7 +9,8 @@ set of crashed nodes.  Actions:
     heartbeat i   node i's heartbeat timer fires           (`_handle_heartbeat_tick`)
     submit i f c  a client calls `nodes[i].submit(c)` and keeps future `f`
     drop m        the network loses message `m` (partition, link loss)
-    crash i / restart i   `CrashNode`: every event aimed at a crashed node is discarded
+    crash i / restart i   `CrashNode`: every event aimed at a crashed node is discarded; windows nest
+                          (one `restart` closes one `crash`; the node is up when none is open)
 
 There is no time in the model: which timer fires when, and the order in which messages
 arrive, are *inputs* (the action list).  Theorems quantify over all action lists, so they cover
@@ -334,7 +335,7 @@ deriving DecidableEq, Repr
 structure St where
   n : Nat
   nodes : Nat → Node
-  crashed : List Nat := []
+  crashed : List Nat := []      -- one occurrence per open crash window (`_crash_depth`)
   msgs : List Env := []         -- newest first
   nextId : Nat := 0
 
@@ -377,8 +378,8 @@ def step (v : Variant) (s : St) : Act → St × StepOut
   | .heartbeat i => if alive s i then applyHR s i (handleHB s.n (s.nodes i) i) else (s, { target := some i })
   | .submit i f c => if decide (i < s.n) then applyHR s i (handleSubmit (s.nodes i) f c) else (s, { target := some i })
   | .drop m => ({ s with msgs := s.msgs.filter (fun e => e.id != m) }, {})
-  | .crash i => ({ s with crashed := if s.crashed.contains i then s.crashed else i :: s.crashed }, { target := some i })
-  | .restart i => ({ s with crashed := s.crashed.filter (fun j => j != i) }, { target := some i })
+  | .crash i => ({ s with crashed := i :: s.crashed }, { target := some i })
+  | .restart i => ({ s with crashed := s.crashed.erase i }, { target := some i })
 
 def run (v : Variant) (s : St) : List Act → St
   | [] => s
